@@ -1,7 +1,9 @@
-ENTRY = {'modules': ['VirtioVerif.Props.C20'],
+ENTRY = {'modules': ['VirtioVerif.Props.C20', 'VirtioVerif.Props.CmdQueueRefines'],
  'assumptions': ['the split-virtqueue core is abstracted by Model/CmdQueue.lean (add returns a token; the '
                  'device completes outstanding chains in any order with any bytes; pop_used only in '
-                 'used-ring order) - its refinement by queue.rs is the subject of C01-C05',
+                 'used-ring order) - its refinement by queue.rs is the subject of C01-C05; CmdQueueRefines proves that CmdQueue is the '
+                 'abstract queue AbsQueue up to token names (add / refuse / complete in any order / pop / NotReady / '
+                 'WrongToken simulation lemmas), and QueueRefines (C03) that the concrete queue refines AbsQueue',
                  'the device is the environment: a universally quantified function from requests to response '
                  'bytes / a universally quantified completion schedule',
                  'Hal contract: dma_alloc returns non-aliasing page-aligned memory; share/unshare bounce '
